@@ -456,6 +456,7 @@ type c06FtEntry struct {
 }
 
 type c06Gen struct {
+	pendingPost *c06Pending
 	r      *RunCtx
 	p      *PRNG
 	cfg    c06Config
@@ -477,6 +478,11 @@ type c06Gen struct {
 	histNo int
 
 	challFindings, aclFindings, payFindings int // caps, so that the divergence findings are never crowded out
+}
+
+type c06Pending struct {
+	By    int
+	Entry c06FtEntry
 }
 
 func (g *c06Gen) prov(i int) int   { return 1 + i }                                       // account index of genesis provider i
@@ -1382,6 +1388,29 @@ func (g *c06Gen) run() (*c06Trace, error) {
 				g.send(u, "oracle.UpdateFeed", feed(20+g.p.Intn(80)))
 				g.send(b1, "storage.BuyStorage", buy(b1))
 				g.send(u, "oracle.UpdateFeed", feed(200+g.p.Intn(300)))
+			}
+			// a two-message transaction whose second message fails (its first, a grant of edit rights, must vanish
+			// with it), and in the next block a post by the account it named: rights remembered outside the
+			// branched store (per process) decide differently on a node that was restarted in between
+			if height > 6 && height%6 == 3 && len(g.ft) > 0 {
+				en := g.ft[g.p.Intn(len(g.ft))]
+				ow := g.accts[en.Owner].Addr.String()
+				x := g.user((en.Owner + 1) % cfg.NUsers)
+				if x == en.Owner {
+					x = g.prov(0)
+				}
+				eid, ek := g.ftEditorIDs(en, []int{x})
+				g.send(en.Owner, "filetree.AddEditors+DeleteFile(missing)",
+					&filetreetypes.MsgAddEditors{Creator: ow, EditorIds: eid[0], EditorKeys: ek[0], Address: en.Address, FileOwner: en.OwnerStr},
+					&filetreetypes.MsgDeleteFile{Creator: ow, HashPath: c06Sha("no-such-entry"), Account: c06Sha(ow)})
+				g.pendingPost = &c06Pending{By: x, Entry: en}
+			} else if g.pendingPost != nil {
+				pp := g.pendingPost
+				g.pendingPost = nil
+				by := g.accts[pp.By].Addr.String()
+				ow := g.accts[pp.Entry.Owner].Addr.String()
+				g.send(pp.By, "filetree.PostFile(after rolled-back grant)", &filetreetypes.MsgPostFile{Creator: by, Account: c06Sha(ow), HashParent: pp.Entry.Address, HashChild: c06Sha(fmt.Sprint("late", height)),
+					Contents: "{}", Viewers: "{}", Editors: "{}", TrackingNumber: "tn" + c06Sha(fmt.Sprint("late", height))[:16]})
 			}
 			if height > 6 && height%5 == 2 {
 				b2 := g.user(2 % cfg.NUsers)
